@@ -618,6 +618,7 @@ type unitStat struct {
 	Restarts   int64 `json:"executions_with_clean_restart"`
 	MaxDepth   int64 `json:"max_depth"`
 	Repeats    int   `json:"repeats"`
+	Capped     bool  `json:"capped"`
 }
 
 func TestCheck(t *testing.T) {
@@ -693,16 +694,17 @@ func TestCheck(t *testing.T) {
 	var st explore.Stats
 	var caps []string
 	stats := make([]*unitStat, len(units))
+	notStarted := 0
 	for j, u := range units {
-		if f := os.Getenv("C06_DEV_UNIT"); f != "" && !strings.Contains(u.String()+" ", f) { // DEV-ONLY
-			continue
-		}
-		if !claim(j) {
+		if f := os.Getenv("C06_DEV_UNIT"); f != "" && !strings.Contains(u.String()+"$", f) { // DEV-ONLY
 			continue
 		}
 		left := deadline - time.Since(started)
 		if left <= 0 {
-			caps = append(caps, fmt.Sprintf("deadline %s reached before unit %d of %d (%s)", deadline, j+1, len(units), u))
+			notStarted++ // left unclaimed: every shard passes the deadline at about the same time
+			continue
+		}
+		if !claim(j) {
 			continue
 		}
 		var execRestart int64
@@ -741,16 +743,17 @@ func TestCheck(t *testing.T) {
 		if s.MaxDepth > st.MaxDepth {
 			st.MaxDepth = s.MaxDepth
 		}
-		if s.Capped == "" {
-			stats[j] = &unitStat{s.Executions, execRestart, s.MaxDepth, u.repeats()}
-			if shardDir != "" {
-				bz, _ := json.Marshal(stats[j])
-				tmp := filepath.Join(shardDir, fmt.Sprintf("c06-unit-%d.tmp", j))
-				if err := os.WriteFile(tmp, bz, 0o600); err == nil {
-					_ = os.Rename(tmp, filepath.Join(shardDir, fmt.Sprintf("c06-unit-%d.stat", j)))
-				}
+		stats[j] = &unitStat{s.Executions, execRestart, s.MaxDepth, u.repeats(), s.Capped != ""}
+		if shardDir != "" {
+			bz, _ := json.Marshal(stats[j])
+			tmp := filepath.Join(shardDir, fmt.Sprintf("c06-unit-%d.tmp", j))
+			if err := os.WriteFile(tmp, bz, 0o600); err == nil {
+				_ = os.Rename(tmp, filepath.Join(shardDir, fmt.Sprintf("c06-unit-%d.stat", j)))
 			}
 		}
+	}
+	if notStarted > 0 {
+		caps = append(caps, fmt.Sprintf("deadline %s reached: %d of %d units not started by this process", deadline, notStarted, len(units)))
 	}
 	// totals over all shards (measured by whichever shard ran the unit). Shard 0 waits for the others' records; a
 	// record that does not arrive in time only makes the breakdown incomplete, never the verdict.
@@ -765,6 +768,9 @@ func TestCheck(t *testing.T) {
 		missing := 0
 		for j := range units {
 			for stats[j] == nil && shardDir != "" {
+				if _, err := os.Stat(filepath.Join(shardDir, fmt.Sprintf("c06-unit-%d.claim", j))); err != nil {
+					break // nobody started this unit
+				}
 				if bz, err := os.ReadFile(filepath.Join(shardDir, fmt.Sprintf("c06-unit-%d.stat", j))); err == nil {
 					var us unitStat
 					if json.Unmarshal(bz, &us) == nil {
@@ -777,7 +783,7 @@ func TestCheck(t *testing.T) {
 				}
 				time.Sleep(20 * time.Millisecond)
 			}
-			if stats[j] == nil {
+			if stats[j] == nil || stats[j].Capped {
 				missing++
 			}
 		}
@@ -798,7 +804,7 @@ func TestCheck(t *testing.T) {
 		bounds["max_decision_points"] = depth
 		breakdown := map[string]any{"executions": all, "executions_on_chains_with_repeated_tx_list": onRepeat, "executions_with_clean_restart": withRestart}
 		if missing > 0 {
-			breakdown["units_without_record"] = missing
+			breakdown["units_not_completed"] = missing
 		}
 		bounds["measured_breakdown_all_shards"] = breakdown
 	}
